@@ -196,7 +196,12 @@ func main() {
 			par, _ := drv.NewLoc("P", kind, drv.MustMem())
 			prov := core.NewSimpleLocationProvider(map[string]*core.Location{"L": loc, "P": par})
 			loc.Provider, par.Provider = prov, prov
-			addTo(par, "p", 1+g.Intn(3))
+			// in half of the sets the parent uses the ids of the child (ids are per location)
+			pp := "p"
+			if si%8 >= 6 {
+				pp = "f"
+			}
+			addTo(par, pp, 1+g.Intn(3))
 			loc.SetParents(drv.Ctx(), []string{"P"})
 		}
 		// rule used to observe the query as a condition
